@@ -42,7 +42,7 @@ claim("C04", "other",
       "Every source of the index handle_srt_packet routes on is enumerated from the MIR (scheduler result, best-path override) and must "
       "carry ELIG = !timed_out & schedulable & !stall_gated, inside its producer or as a use-site guard; both selectors' scoring predicates "
       "entail ELIG and only scored links' indices are stored/returned; pre-registration forwarding is confined to !has_connected, which is "
-      "monotone; the data queue is fed only by the forwarder and the gated probe. Found defect F1 (override ignored eligibility), repaired.",
+      "monotone; the data queue is fed only by the forwarder and the gated probe; connected => last_received.is_some() is kept by every writer (so that is_timed_out can exclude a dead connected link). Found defect F1 (override ignored eligibility), repaired.",
       "DESIGN.md 5 C04", "")
 claim("C06", "proof",
       "interval + symbolic abstract interpretation of every writer of `window` (discovered by who-may-write incl. &mut flows), path-sensitive snapshots for the fast-recovery thresholds",
@@ -89,7 +89,7 @@ claim("C08", "other",
       "{connected, last_received, conn_timeout_ms, reconnection.*} and for a connected link equals now - last_received >= conn_timeout_ms; back-off in [5000,120000], "
       "1 s initial cadence after the grace deadline, back-off cadence afterwards, every attempt stamped before the teardown; REG3 clears pre-registration state before "
       "connected := true (zero in-flight, cleared log, Warming), resets restore window 20000; the per-link timeout copy is refreshed from the configuration in a full loop "
-      "that dominates every housekeeping pass inside the event loop; every datagram that is not a handshake reply refreshes last_received on every path of the receive handler; the retry stamp is only ever set to a current time by the attempt recorder and the full reset. Found defect F7 (stale 5 s copy), repaired.",
+      "that dominates every housekeeping pass inside the event loop; every datagram that is not a handshake reply refreshes last_received on every path of the receive handler; the retry stamp is only ever set to a current time by the attempt recorder and the full reset; the retry test sits in a whole-slice loop without early exit that every housekeeping pass reaches. Found defect F7 (stale 5 s copy), repaired.",
       "DESIGN.md 5 C08", "Timed liveness ('within 30 s', 'retries forever', survivors' throughput) is not decided.")
 claim("C16", "other",
       "interval + symbolic (float) abstract interpretation of tick() against the symbols prev / obs with interval-coefficient products, path-condition guards for the bootstrap branch and the loss latch, sentinel-exclusivity rule for the seed guard",
